@@ -65,6 +65,17 @@ def run(ctx):
     def finite(e):
         return all(v is not None and np.isfinite(v) for v in fields(e))
 
+    def ioff(e, sps):
+        # the sampling index is the index of the optimum instant: circular distance (milli-samples, modulo one slot) between `i` and the
+        # sample that sits at t_opt once the centring roll of the eye window (sps/2 - 1 samples) is undone - the conventions in use
+        # (truncate / round; -sps/2 or +sps/2) differ by at most two samples, a wrong mapping back from the eye grid by a fraction of a slot
+        try:
+            ref = (float(e.t_opt) + 0.5) * sps - 0.5
+            d = ((float(e.i) - ref + sps / 2.0) % sps) - sps / 2.0
+            return int(round(d * 1000)) if np.isfinite(d) else 10 ** 9
+        except Exception:
+            return 10 ** 9
+
     def ppm(x):
         return int(max(-2 * 10 ** 9, min(2 * 10 ** 9, round(x * 1e6))))
 
@@ -99,7 +110,7 @@ def run(ctx):
         if ok:
             events.append({"kind": "est", "finite": True, "mu0e": ppm((e.mu0 - a) / d), "mu1e": ppm((e.mu1 - b) / d), "s0": ppm(e.s0 / d), "s1": ppm(e.s1 / d),
                            "sigma": ppm(sigma), "thr_in": bool(e.mu0 < e.threshold < e.mu1), "tdist_ppm": ppm(e.t_right - e.t_left),
-                           "topt_mid_ppm": ppm(e.t_opt - (e.t_left + e.t_right) / 2), "i": int(e.i), "i_int": bool(isinstance(e.i, (int, np.integer))), "sps": sps, "grid": int(RESAMP[0] or sps), "populated": kind in ("random", "prbs")})
+                           "topt_mid_ppm": ppm(e.t_opt - (e.t_left + e.t_right) / 2), "i": int(e.i), "i_int": bool(isinstance(e.i, (int, np.integer))), "i_off": ioff(e, sps), "sps": sps, "grid": int(RESAMP[0] or sps), "populated": kind in ("random", "prbs")})
         else:
             events.append({"kind": "est", "finite": False})
         meta.append(("est", (a, b), sps, sigma))
@@ -130,7 +141,7 @@ def run(ctx):
         if finite(e):
             events.append({"kind": "est", "finite": True, "mu0e": ppm((e.mu0 - a) / d), "mu1e": ppm((e.mu1 - b) / d), "s0": ppm(e.s0 / d), "s1": ppm(e.s1 / d),
                            "sigma": 0, "thr_in": bool(e.mu0 < e.threshold < e.mu1), "tdist_ppm": ppm(e.t_right - e.t_left),
-                           "topt_mid_ppm": ppm(e.t_opt - (e.t_left + e.t_right) / 2), "i": int(e.i), "i_int": bool(isinstance(e.i, (int, np.integer))), "sps": sps,
+                           "topt_mid_ppm": ppm(e.t_opt - (e.t_left + e.t_right) / 2), "i": int(e.i), "i_int": bool(isinstance(e.i, (int, np.integer))), "i_off": ioff(e, sps), "sps": sps,
                            "grid": int(RESAMP[0] or sps), "populated": True})
         else:
             events.append({"kind": "est", "finite": False})
@@ -152,7 +163,7 @@ def run(ctx):
         if finite(e):
             events.append({"kind": "est", "finite": True, "mu0e": ppm((e.mu0 - a) / d), "mu1e": ppm((e.mu1 - b) / d), "s0": ppm(e.s0 / d), "s1": ppm(e.s1 / d),
                            "sigma": ppm(0.02), "thr_in": bool(e.mu0 < e.threshold < e.mu1), "tdist_ppm": ppm(e.t_right - e.t_left),
-                           "topt_mid_ppm": ppm(e.t_opt - (e.t_left + e.t_right) / 2), "i": int(e.i), "i_int": bool(isinstance(e.i, (int, np.integer))), "sps": sps,
+                           "topt_mid_ppm": ppm(e.t_opt - (e.t_left + e.t_right) / 2), "i": int(e.i), "i_int": bool(isinstance(e.i, (int, np.integer))), "i_off": ioff(e, sps), "sps": sps,
                            "grid": int(RESAMP[0] or sps), "populated": bool((RESAMP[0] or sps) >= 16)})
         else:
             events.append({"kind": "est", "finite": False})
@@ -169,7 +180,7 @@ def run(ctx):
             if finite(e):
                 events.append({"kind": "est", "finite": True, "mu0e": ppm((e.mu0 - a) / d), "mu1e": ppm((e.mu1 - b) / d), "s0": ppm(e.s0 / d), "s1": ppm(e.s1 / d),
                                "sigma": ppm(sigma), "thr_in": bool(e.mu0 < e.threshold < e.mu1), "tdist_ppm": ppm(e.t_right - e.t_left),
-                               "topt_mid_ppm": ppm(e.t_opt - (e.t_left + e.t_right) / 2), "i": int(e.i), "i_int": bool(isinstance(e.i, (int, np.integer))), "sps": sps, "grid": int(RESAMP[0] or sps), "populated": True})
+                               "topt_mid_ppm": ppm(e.t_opt - (e.t_left + e.t_right) / 2), "i": int(e.i), "i_int": bool(isinstance(e.i, (int, np.integer))), "i_off": ioff(e, sps), "sps": sps, "grid": int(RESAMP[0] or sps), "populated": True})
             else:
                 events.append({"kind": "est", "finite": False})
             meta.append(("est", (a, b), sps, "same-size-sequence"))
@@ -184,7 +195,7 @@ def run(ctx):
         if finite(e):
             events.append({"kind": "est", "finite": True, "mu0e": ppm((e.mu0 - a) / d), "mu1e": ppm((e.mu1 - b) / d), "s0": ppm(e.s0 / d), "s1": ppm(e.s1 / d),
                            "sigma": ppm(sigma), "thr_in": bool(e.mu0 < e.threshold < e.mu1), "tdist_ppm": ppm(e.t_right - e.t_left),
-                           "topt_mid_ppm": ppm(e.t_opt - (e.t_left + e.t_right) / 2), "i": int(e.i), "i_int": bool(isinstance(e.i, (int, np.integer))), "sps": sps, "grid": int(RESAMP[0] or sps), "populated": True})
+                           "topt_mid_ppm": ppm(e.t_opt - (e.t_left + e.t_right) / 2), "i": int(e.i), "i_int": bool(isinstance(e.i, (int, np.integer))), "i_off": ioff(e, sps), "sps": sps, "grid": int(RESAMP[0] or sps), "populated": True})
         else:
             events.append({"kind": "est", "finite": False})
         meta.append(("est", (a, b), sps, "long-record"))
